@@ -432,6 +432,16 @@ def case_compositions(cfg):
             nse = twin if nz else np.zeros(N)
             same = bool(np.all(np.abs(cat.astype(np.clongdouble) - (nse.astype(LD) + csig)) <= ctol + 1e-13 * (np.abs(nse) + 1)))
         outs.add(len(comp))
+        # the property, literally: the concatenation EQUALS the single request -- the same instants, hence the same voltages
+        if not np.array_equal(tcat, whole_ts) or not np.array_equal(cat, whole):
+            dmax = float(np.abs(cat - whole).max())
+            viol.append({'site': 'DataStream.get_samples', 'failure': 'chunk_dependent_instants',
+                         'detail': 'composition %s of %d samples (rate %g Hz from t=%r): the chunks were evaluated at instants differing from the '
+                                   'single request\'s by up to %.3g s (%.3g sample periods); voltages differ by up to %.3g'
+                                   % (comp, N, cfg['rate'], cfg['t_start'], float(np.abs(tcat - whole_ts).max()),
+                                      float(np.abs(tcat - whole_ts).max()) * cfg['rate'], dmax),
+                         'params': dict(cfg, composition=list(comp))})
+            break
         if not same:
             viol.append({'site': 'DataStream.get_samples', 'failure': 'noise_chunking' if nz else 'chunked_values',
                          'detail': 'composition %s of %d samples: concatenated voltages differ from the single request '
